@@ -727,9 +727,9 @@ class C03(RexDriver):
                   'fresh_state_result': rex0}
         if exc is not None:
             R.out('hist-raises:%s' % type(exc).__name__)
-            R.viol('%sraises:%s:opts=%s'
+            R.viol('%sraises:%s:el=%s'
                    % ('history-dependent:' if exc0 is None else '',
-                      type(exc).__name__, A.opt_key(opts)),
+                      type(exc).__name__, opts.get('extra_letters')),
                    'extract-returns',
                    dict(detail, exception=repr(exc)[:300]), sub)
             return
@@ -738,7 +738,8 @@ class C03(RexDriver):
             R.out('hist%d:V' % len(seq))
             ok_fresh = exc0 is None and not M.unmatched(rex0, examples)
             if ok_fresh:
-                sig = 'history-dependent:unmatched:opts=%s' % A.opt_key(opts)
+                sig = ('history-dependent:unmatched:el=%s'
+                       % opts.get('extra_letters'))
             else:
                 def fails(s2, o2):
                     self.fresh_state()
